@@ -23,6 +23,7 @@ def _make_camelcase(name: str) -> str:
 
 
 def rename_class(name: str, *, private: bool) -> str:
+    original_name = name
     name = re.sub("_{1,}", "_", name)
     if len(name) == 0:
         raise ValueError("Cannot rename empty name")
@@ -30,11 +31,12 @@ def rename_class(name: str, *, private: bool) -> str:
     name = _make_camelcase(name)
 
     if private and not parsing.is_private(name):
-        return f"_{name}"
-    if not private and parsing.is_private(name):
-        return name[1:]
+        name = f"_{name}"
+    elif not private and parsing.is_private(name):
+        name = name[1:]
 
-    return name
+    # Names without ascii letters ("_", "é"), or with a digit first ("_1x"), have no CamelCase form
+    return name if name.isidentifier() else original_name
 
 
 def rename_variable(variable: str, *, static: bool, private: bool) -> str:
@@ -51,7 +53,5 @@ def rename_variable(variable: str, *, static: bool, private: bool) -> str:
     if not private and parsing.is_private(renamed_variable):
         renamed_variable = renamed_variable.lstrip("_")
 
-    if renamed_variable:
-        return renamed_variable
-
-    raise RuntimeError(f"Unable to find a replacement name for {variable}")
+    # Names without ascii letters ("é"), or with a digit first ("_1x"), have no snake_case form
+    return renamed_variable if renamed_variable.isidentifier() else variable
